@@ -196,6 +196,28 @@ def run_stats(spec):
                 f"chi={chi}: (max_size, peak, write) ({ms_c}, {pk_c}, {w_c}) exceeds the uncapped ({ms}, {pk}, {w})"
             )
             break
+    # a compressed tree told its objective BY NAME must use that objective's cap
+    # for its default figures (as reusable optimizers do when they rebuild a tree)
+    if not viol and n >= 2 and sizes:
+        chi_o = 2 if spec.get("seed", 0) % 2 else 4
+
+        def named():
+            tc = ctg.ContractionTreeCompressed.from_path(
+                inputs, output, sizes, path=[tuple(p) for p in spec["path"]], objective=f"peak-compressed-{chi_o}"
+            )
+            want_ = tc.compressed_contract_stats(chi=chi_o)
+            return tc.get_default_chi(), tc.total_flops(), tc.max_size(), want_.flops, want_.max_size
+
+        ok, r = guarded(named)
+        if not ok:
+            viol.append(f"compressed tree with objective given by name raised {r}")
+        else:
+            dchi, tf, ms, wf, wms = r
+            if dchi != chi_o or tf != wf or ms != wms:
+                viol.append(
+                    f"ContractionTreeCompressed(objective='peak-compressed-{chi_o}') uses default chi {dchi}: "
+                    f"total_flops()={tf}, max_size()={ms}; with chi={chi_o} they are {wf}, {wms}"
+                )
     aa = spec.get("again_after")
     if aa and not viol and n >= 3 and not dangling_labels(net):
         sd_ = spec.get("seed", 0)
